@@ -46,7 +46,7 @@ TERMINATOR = {"html": "-->", "c": "*/", "jinja": "#}", "ml": "*)"}
 
 
 def generate(tier, seed):
-    n = 2000 if tier == "quick" else 150000
+    n = 5000 if tier == "quick" else 150000
     per = 20
     return [{"k": k, "n": per} for k in range(n // per)]
 
